@@ -1344,6 +1344,10 @@ def gen_pool(rng, tier):
                 sched.append("d:%d:*:%d" % (rng.choice(windows), rng.choice([500, 5000])))
         else:
             sched = ["rand:%d:%d:%d" % (rng.randrange(1 << 30), rng.choice([50, 200, 500]), rng.choice([200, 2000]))]
+        if rng.random() < 0.3:
+            # spurious wake-ups: the next waits of one (or any) worker return without a notification,
+            # as std::condition_variable::wait is allowed to
+            sched.append("sp:%s:%d" % (rng.choice(["*", "0", str(rng.randrange(max(1, n)))]), rng.randint(1, 3)))
         out.append(("w%d" % k, ["grid pool", "pool %d %s %s" % (n, " ".join(sched), " ".join(prog))]))
     return out
 
@@ -1362,6 +1366,10 @@ def pool_tags(si):
                 t.append("random_delays")
             if int((c.i("delays_fired") or ["0"])[0]) > 0:
                 t.append("delay_fired")
+            if any(x.startswith("sp:") for x in c.toks):
+                t.append("spurious_wakeups_armed")
+            if int((c.i("spurious_fired") or ["0"])[0]) > 0:
+                t.append("spurious_wakeup_fired")
     return sorted(set(t))
 
 
@@ -1416,7 +1424,7 @@ register("C11", gen=gen_pool, runner=c11_runner, oracles=[oracle.c11], cause=ora
                        "delay injection explores interleavings by timing, it cannot force every schedule; resize/stop/destruction are exercised but not part of the protocol model",
                        "memory orders and 'notify under the mutex' are regenerated from thread_pool_inl.hpp by translate.py"])
 _lvl("C11", "proof",
-     "Theorems: blocks_exact / index_in_unique_block (for every range, pool size and minimum size the blocks of the executed function mkBlocks are at most pool-size many, non-empty, contiguous, and every index lies in exactly one); protocol model Fs.Pool4 (N workers, per-worker job flags, mutex, condition variable, stopped flag, caller programs of run_blocks / pause / resume / stop / resize as the library issues them, every interleaving): exactly_once (between API calls every worker has run its block exactly once per run_blocks call that gave it one; at_most_once_in_flight inside a call), no_stuck_state4 (a state whose caller has not finished always has an enabled thread: no lost wake-up, no deadlock, also through stop / join / resize / destruction while paused), no_infinite_run / terminates (a lexicographic measure decreases at every step: every fair execution terminates), no_stranded_flag, between_calls; the model transcribes the source's steps, which are re-checked on every run (source_protocol_shape: pause waits, publishes, then spins until all workers are counted; resume notifies under the mutex then waits; run_tasks resumes when paused; run_blocks waits; stop sets the flag, resumes if paused, joins; the worker tests stopped, then the flag, runs, clears; resize stops then resets - decide over facts regenerated from thread_pool_inl.hpp; source_notifies_under_mutex); source_publication (release/acquire orders regenerated from the source give happens-before for job data and results). The earlier 3-op model (no_stuck_state) is kept. Real C++ data races and spurious wake-ups are outside the model: covered by the TSan / schedule-injection runs only (partial).",
+     "Theorems: blocks_exact / index_in_unique_block (for every range, pool size and minimum size the blocks of the executed function mkBlocks are at most pool-size many, non-empty, contiguous, and every index lies in exactly one); protocol model Fs.Pool4 (N workers, per-worker job flags, mutex, condition variable, stopped flag, caller programs of run_blocks / pause / resume / stop / resize as the library issues them, every interleaving): exactly_once (between API calls every worker has run its block exactly once per run_blocks call that gave it one; at_most_once_in_flight inside a call), no_stuck_state4 (a state whose caller has not finished always has an enabled thread: no lost wake-up, no deadlock, also through stop / join / resize / destruction while paused), no_infinite_run / terminates (a lexicographic measure decreases at every step: every fair execution terminates), no_stranded_flag, between_calls; the model transcribes the source's steps, which are re-checked on every run (source_protocol_shape: pause waits, publishes, then spins until all workers are counted; resume notifies under the mutex then waits; run_tasks resumes when paused; run_blocks waits; stop sets the flag, resumes if paused, joins; the worker tests stopped, then the flag, runs, clears; resize stops then resets - decide over facts regenerated from thread_pool_inl.hpp; source_notifies_under_mutex); source_publication (release/acquire orders regenerated from the source give happens-before for job data and results). The earlier 3-op model (no_stuck_state) is kept. Real C++ data races and spurious wake-ups are outside the model: covered by the TSan / schedule-injection runs only (partial). SPURIOUS WAKE-UPS: the protocol model assumes a condition wait returns only when notified; asking what that hid led to finding D16 (the pause job waited without a predicate: a spurious wake-up made pause() spin forever), reproduced on the real code through a guarded injection point and repaired in /repo (the pause job now waits while m_pause_requested); the generators arm spurious returns in 30% of the pool programs and the translator requires the predicate loop.",
      "Lean 4 inductive invariant + progress + well-founded termination over all interleavings (any N) + Nat arithmetic proofs + decide over translator-regenerated protocol shape and memory orders; correspondence: schedule-injection harness (guarded hooks) under ASan and TSan")
 
 
